@@ -7,6 +7,7 @@ CANARY = "\nverus! {\nproof fn vx_canary()\n    ensures false,\n{\n}\n} // vx ca
 FAIL_KINDS = [
     (re.compile(r'^postcondition not satisfied'), 'postcondition'),
     (re.compile(r'^precondition not satisfied'), 'precondition'),
+    (re.compile(r'^Call to non-static function fails to satisfy'), 'precondition'),
     (re.compile(r'^assertion failed'), 'assertion'),
     (re.compile(r'^invariant not satisfied'), 'invariant'),
     (re.compile(r'^loop invariant not'), 'invariant'),
@@ -23,6 +24,7 @@ RLIMIT = re.compile(r'[Rr]esource limit|rlimit')
 
 SHIM_ASSUMPTIONS = {
     'prelude.rs': 'A-std: helper shims (vx_unreachable requires false, vx_assert requires its condition, vx_fmt drops format text)',
+    'stdint.rs': 'A-std: std integer methods (abs, unsigned_abs) as documented',
     'f64.rs': 'A-float: float methods are total, results unconstrained; float branches are verified for panic-freedom only',
     'bigint.rs': 'A-bigint: num-bigint implements exact integer arithmetic; / truncates toward zero, % has the sign of the dividend, both panic on zero divisor; to_i64 is Some iff in range',
     'bigint_ops.rs': 'A-bigint (operators)',
